@@ -1624,6 +1624,15 @@ class AstEval:
                 if isinstance(self.sym_table[arg.id], EvalLocalVar):
                     return self.sym_table[arg.id].get()
                 return self.sym_table[arg.id]
+            #
+            # a class body sees the variables of the function (call) it is defined in
+            #
+            if self.func_stack_base and len(self.sym_table_stack) > self.func_stack_base:
+                sym_table = self.sym_table_stack[self.func_stack_base]
+                if arg.id in sym_table:
+                    if isinstance(sym_table[arg.id], EvalLocalVar):
+                        return sym_table[arg.id].get()
+                    return sym_table[arg.id]
             if arg.id in self.local_sym_table:
                 return self.local_sym_table[arg.id]
             if arg.id in self.global_sym_table:
@@ -2160,6 +2169,15 @@ class AstEval:
                 names.add(arg.name)
                 for dec in arg.decorator_list:
                     await self.get_names_set(dec, names, nonlocal_names, global_names, local_names)
+                #
+                # default values, base classes and class keywords are evaluated in this scope too
+                #
+                if cls_name == "ClassDef":
+                    outer_exprs = list(arg.bases) + [kw.value for kw in arg.keywords]
+                else:
+                    outer_exprs = list(arg.args.defaults) + [d for d in arg.args.kw_defaults if d is not None]
+                for expr in outer_exprs:
+                    await self.get_names_set(expr, names, nonlocal_names, global_names, local_names)
                 #
                 # find unbound names from the body of the function or class
                 #
